@@ -58,12 +58,12 @@ CHECKS = {
          "DESIGN.md §4 C11"),
  "C12": ("exploration",
          "runtime statistical monitor (Bernstein 1e-10 per category; p=0/p=1 exact; Hoeffding for mean child length) over 285 configurations of rates, lengths and generators",
-         "Per-gene flip frequency and adjacent-pair joint frequency for WithRate / WithOneOverLength; UMAD (through all three constructors, the empty-genome rate set far from both other rates) per-position deletion, aggregated additions a(1-d), the full joint law on one-gene parents, empty-parent additions for all three constructors, mean child length incl. d=a/(1+a); uniform crossover 1/2 and pair independence on four flavours; Bitstring::random*, BoolGenerator; GeneGenerator through all six public constructors: close frequency (explicit and default 1/(n+1), n=1..31) and instruction frequencies (uniform and skewed, direct and via a Plushy collection generator); lengths 100/200/1000 for bit-flip, random bitstrings and uniform crossover; the 1/length rate also on 3000..70000 genes (aggregated). 2e6 (quick) / 4e7 (thorough) samples per configuration before length scaling. BoolGenerator is also reconfigured through its public probability field after construction and after a draw.",
+         "Per-gene flip frequency and adjacent-pair joint frequency for WithRate / WithOneOverLength; UMAD (through all three constructors, the empty-genome rate set far from both other rates) per-position deletion, aggregated additions a(1-d), the full joint law on one-gene parents, empty-parent additions for all three constructors, mean child length incl. d=a/(1+a); uniform crossover 1/2 and pair independence on four flavours; Bitstring::random*, BoolGenerator; GeneGenerator through all six public constructors: close frequency (explicit and default 1/(n+1), n=1..31) and instruction frequencies (uniform and skewed, direct and via a Plushy collection generator); lengths 100/200/1000 for bit-flip, random bitstrings and uniform crossover; the 1/length rate also on 3000..70000 genes (aggregated). 2e6 (quick) / 4e7 (thorough) samples per configuration before length scaling. BoolGenerator is also reconfigured through its public probability field after construction and after a draw. Default close probability also on instruction sets of 200000 and 2^20-1 instructions.",
          "A bias below the stated resolution is invisible.",
          "DESIGN.md §4 C12"),
  "C13": ("exploration",
          "runtime monitor with marker selectors: per-selection delegation log (exactly one positive-weight member, result is that member's) + Bernstein intervals on delegation frequencies w_i/sum(w) + exact construction verdicts at the 32-bit boundary",
-         "13 nestings x 32 weight multisets (incl. large unequal weights) (zeros, all-zero, 2^31 / u32::MAX boundaries, overflowing totals, overflow early in a chain) in several permutations, 1e6 (quick) / 2e7 (thorough) selections each; 14 staged histories (select, extend with another member, select again) on DynWeighted lists and with_item_and_weight chains, each stage judged against the weights it has at that moment.",
+         "13 nestings x 32 weight multisets (incl. large unequal weights) (zeros, all-zero, 2^31 / u32::MAX boundaries, overflowing totals, overflow early in a chain) in several permutations, 1e6 (quick) / 2e7 (thorough) selections each; 14 staged histories (select, extend with another member, select again) on DynWeighted lists and with_item_and_weight chains, each stage judged against the weights it has at that moment. Dynamic lists also with usize weights beyond 2^32.",
          "Members are marker selectors; DynWeighted takes usize weights so overflowing 32-bit totals are legal there.",
          "DESIGN.md §4 C13"),
  "C14": ("fault_enumeration",
